@@ -31,6 +31,8 @@ func main() {
 		os.Exit(cmdCheck(os.Args[2:]))
 	case "vc":
 		os.Exit(cmdVC(os.Args[2:]))
+	case "libcalls":
+		os.Exit(cmdLibCalls(os.Args[2:]))
 	case "list":
 		os.Exit(cmdList(os.Args[2:]))
 	default:
@@ -134,11 +136,29 @@ func loadKnown() []KnownFinding {
 	return out
 }
 
+// loadNotClaimed: obligations that do not discharge on the unchanged tree and are NOT claimed
+// (listed honestly in the evidence; they are neither proved nor reported as violations).
+func loadNotClaimed() map[string]bool {
+	out := map[string]bool{}
+	data, err := os.ReadFile(filepath.Join(verifDir, "specs", "not_claimed.txt"))
+	if err != nil {
+		return out
+	}
+	for _, ln := range strings.Split(string(data), "\n") {
+		ln = strings.TrimSpace(ln)
+		if ln == "" || strings.HasPrefix(ln, "#") {
+			continue
+		}
+		out[ln] = true
+	}
+	return out
+}
+
 // ---------- check ----------
 
 type fnJob struct {
-	f  *ssa.Function
-	vc *FnVC
+	f   *ssa.Function
+	vc  *FnVC
 	err error
 }
 
@@ -297,6 +317,7 @@ func cmdCheck(args []string) int {
 		}
 		wg2.Wait()
 	}
+	notClaimed := loadNotClaimed()
 	known := loadKnown()
 	isKnown := func(name string) *KnownFinding {
 		for i := range known {
@@ -314,7 +335,8 @@ func cmdCheck(args []string) int {
 	violations := 0
 	var samples []map[string]interface{}
 	var failed []*Obligation
-	var knownHit []string
+	var knownHit, notClaimedHit []string
+	nNotClaimed := 0
 	for _, r := range todo {
 		ob := r.j.vc.Obs[r.k]
 		total++
@@ -323,6 +345,12 @@ func cmdCheck(args []string) int {
 			if len(samples) < 6 && (ob.Kind == "ensures" || ob.Kind == "invariant" || len(samples) < 3) {
 				samples = append(samples, map[string]interface{}{"obligation": ob.Name, "kind": ob.Kind, "answer": ob.Result, "solver": ob.Solver, "secs": round3(ob.Secs), "pos": ob.Pos})
 			}
+			continue
+		}
+		if notClaimed[ob.Name] {
+			nNotClaimed++
+			total--
+			notClaimedHit = append(notClaimedHit, ob.Name)
 			continue
 		}
 		if k := isKnown(ob.Name); k != nil {
@@ -362,9 +390,9 @@ func cmdCheck(args []string) int {
 	}
 	wall := time.Since(t0).Seconds()
 	if !*noEvidence && *only == "" {
-		writeEvidence(v, *prop, *tier, seed, jobs, total, discharged, violations, knownHit, samples, perBackend, solverSecs, wall)
+		writeEvidence(v, *prop, *tier, seed, jobs, total, discharged, violations, knownHit, samples, perBackend, solverSecs, wall, notClaimedHit, ncovers)
 	}
-	fmt.Printf("property %s: %d obligations over %d functions, %d discharged, %d known findings, %d violations (%.1fs)\n", *prop, total, len(jobs), discharged, len(knownHit), violations, wall)
+	fmt.Printf("property %s: %d obligations over %d functions, %d discharged, %d known findings, %d violations, %d not claimed (%.1fs)\n", *prop, total, len(jobs), discharged, len(knownHit), violations, nNotClaimed, wall)
 	return exit
 }
 
@@ -386,7 +414,7 @@ type Replay struct {
 	Notes      []string `json:"notes,omitempty"`
 }
 
-func writeEvidence(v *Verifier, prop, tier string, seed int, jobs []*fnJob, total, discharged, violations int, knownHit []string, samples []map[string]interface{}, perBackend map[string]map[string]int, solverSecs map[string]float64, wall float64) {
+func writeEvidence(v *Verifier, prop, tier string, seed int, jobs []*fnJob, total, discharged, violations int, knownHit []string, samples []map[string]interface{}, perBackend map[string]map[string]int, solverSecs map[string]float64, wall float64, notClaimed []string, ncovers int) {
 	var fns []string
 	assump := map[string]bool{}
 	lib := map[string]bool{}
@@ -439,6 +467,8 @@ func writeEvidence(v *Verifier, prop, tier string, seed int, jobs []*fnJob, tota
 			"unsupported":              unsup,
 			"samples":                  samples,
 			"partial_correctness_only": true,
+			"not_claimed_obligations":  notClaimed,
+			"vacuity_covers_reachable": ncovers,
 		},
 	}
 	extra := extraEvidence(prop)
@@ -458,4 +488,46 @@ func extraEvidence(prop string) map[string]interface{} {
 		json.Unmarshal(data, &out)
 	}
 	return out
+}
+
+func cmdLibCalls(args []string) int {
+	fs := flag.NewFlagSet("libcalls", flag.ExitOnError)
+	repo := fs.String("repo", "/repo", "repository")
+	fs.Parse(args)
+	v := load(*repo)
+	cnt := map[string]int{}
+	sigs := map[string]string{}
+	for _, f := range v.AllFns {
+		for _, b := range f.Blocks {
+			for _, in := range b.Instrs {
+				ci, ok := in.(ssa.CallInstruction)
+				if !ok {
+					continue
+				}
+				cc := ci.Common()
+				if cc.IsInvoke() {
+					cnt["invoke "+invokeKey(cc)]++
+					continue
+				}
+				if cal := cc.StaticCallee(); cal != nil && !v.inModule(cal) {
+					cnt["static "+libKey(cal)]++
+					sigs[libKey(cal)] = cal.Signature.String()
+				}
+			}
+		}
+	}
+	var keys []string
+	for k := range cnt {
+		keys = append(keys, k)
+	}
+	sort.Strings(keys)
+	for _, k := range keys {
+		name := strings.SplitN(k, " ", 2)[1]
+		mark := " "
+		if v.DB.Contracts[name] != nil {
+			mark = "*"
+		}
+		fmt.Printf("%s %3d %s %s\n", mark, cnt[k], k, sigs[name])
+	}
+	return 0
 }
